@@ -645,7 +645,10 @@ class Env:
                 # the very same exception object surfaces again in another call / through another policy
                 # (memoised failure, Future.result(), module-level error singleton): its own class travels with it
                 e = shared
-            elif step.get("reuse_refreshed") and prev is not None and type(prev) in (SimError, SimRuntimeError, SimOSError):
+            elif step.get("reuse_refreshed") and prev is not None and type(prev) in (SimError, SimRuntimeError, SimOSError) \
+                    and prev.label.startswith(f"Ec{cs.cid}a"):
+                # (only an object this call created itself: refreshing one that another, possibly still running, call
+                # has raised would change that call's failure under its feet)
                 # one cached error object, refreshed in place before it is raised again: what the classifier says about
                 # it now differs from what it said last time
                 e = prev
